@@ -200,6 +200,30 @@ def run(ctx):
                     ctx.violation("rotation/%s" % kind, {"meth": meth, "angle": ang, "defect": d})
                 else:
                     ctx.trace_ok()
+    # the four cross-section numbers of the multi-sphere solution are invariants of the same rotation
+    # (cluster and polarisation turned together), for polarisations along and oblique to the axes
+    from holopy.scattering import calc_cross_sections
+    close = [(0.5, 0.1, 0.0), (-0.4, -0.2, 0.3), (0.1, 0.75, -0.2)]
+    # (each cluster cross-section call integrates the asymmetry adaptively, ~5 s: the quick tier keeps 4)
+    for kind, rs in ((("pair", [0.35, 0.35]),) if quick else (("pair", [0.35, 0.35]), ("mixed_trimer", [0.35, 0.2, 0.3]))):
+        sp = [Sphere(n=1.59, r=r, center=close[i]) for i, r in enumerate(rs)]
+        for psi in ((0.3, 2.0) if quick else (0.0, 0.3, math.pi / 4, 2.0)):
+            cs0 = calc_cross_sections(Spheres(sp), illum_polarization=(math.cos(psi), math.sin(psi)),
+                                      theory=Multisphere(), medium_index=1.33, illum_wavelen=0.66).values
+            for ang in ((0.7,) if quick else (0.7, 2.0)):
+                ca, sa = math.cos(ang), math.sin(ang)
+                sp2 = [Sphere(n=1.59, r=s_.r, center=(ca * s_.center[0] - sa * s_.center[1],
+                                                      sa * s_.center[0] + ca * s_.center[1], s_.center[2])) for s_ in sp]
+                cs1 = calc_cross_sections(Spheres(sp2), illum_polarization=(math.cos(psi + ang), math.sin(psi + ang)),
+                                          theory=Multisphere(), medium_index=1.33, illum_wavelen=0.66).values
+                d = max(float(np.max(np.abs(cs1[:3] - cs0[:3]))) / abs(cs0[2]), abs(float(cs1[3] - cs0[3])))
+                ctx.case(("rotation_cross_sections", kind, round(psi, 3), ang))
+                if d > 1e-6:
+                    ctx.violation("rotation/cross_sections/%s" % ("axis_polarisation" if psi == 0.0 else "oblique_polarisation"),
+                                  {"radii": rs, "polarisation_angle": psi, "rotation": ang, "defect": d,
+                                   "before": cs0.tolist(), "after": cs1.tolist()})
+                else:
+                    ctx.trace_ok()
     s1 = Sphere(n=1.59, r=0.5, center=(1.0, 1.2, 8.0))
     for meth in (1, 0):
         a = calc_field(pts, Spheres([s1]), theory=Multisphere(meth=meth, **tight), **OPT).values
